@@ -18,6 +18,11 @@
    From round 200 on the state repeats with period 22: node tip 1014, store = genesis + our 14 + the peer's blocks of
    heights 1..65, queue empty, SyncLastRequestHeight 64; the peer's block of height 66 is never stored.
    Consequence: [sync_fork_full] (Proofs/Sync.v) is FALSE ([sync_fork_full_refuted]).
+   Replayed on the Go implementation with the live two-node harness (tools/replay_c11_long_light_fork.patch adds the two
+   scenarios to harness/cmd/ledger/c11.go; the real chains have the same cumulative difficulties 145 / 135 at height 65 /
+   155): "long-light-fork" - node B (14 blocks) had not moved (tip, height 14, cumulative difficulty 145) when the 150 s
+   bound expired, in both attempts; the control "long-light-control" (B holds only the first 13 of its blocks,
+   cumulative difficulty 112 < 133 = the peer's at height 13 + 51) reached the peer's tip in 27 s.
 
    LIVELOCK 2 ([stuck_stale_target]) - needs one false or outdated STATS announcement.
    SyncHeight / SyncDiff only ever grow.  After some peer has announced (height 100, cumulative difficulty 1000) and
